@@ -7,7 +7,7 @@ import msggen
 
 PROPFILES = ["props/C01.v"]
 RULE = ("well-formed frames: every message id x msgmode{GET,SET,POLL,SETPOLL} x parsebitfield x payload lengths "
-        "{0,1,2,definition-1,definition,definition+1,+7, 64,300} x fills, sentinel bytes (00 20 0a 0d ff) at either end of the payload in the definition's own mode, payloads containing pieces of the repr()/str() syntax itself, structure-aware conforming payloads, unknown "
+        "{0,1,2,definition-1,definition,definition+1,+7, 64,300} x fills, sentinel bytes (00 20 0a 0d ff) at either end of the payload in the definition's own mode, payloads containing pieces of the repr()/str() syntax itself or the protocols' sync bytes, frames whose checksum bytes are CR LF / sync bytes / quotes, serialize() and repr() called repeatedly, structure-aware conforming payloads, unknown "
         "class/ids (thorough: all 65536 x lengths 0..2); PARSE and PARSERT (eval(repr)) correspondence + search on the "
         "implementation: serialize()==input, msg_cls/msg_id/length/payload == frame fields, eval(repr(m)).serialize() "
         "== input. non-trivial = distinct accepted frames.")
@@ -58,6 +58,11 @@ def frames(ctx):
         for t in toks:
             for pl in (t, b"ab" + t + b"cd", t + t, b"x" * 7 + t):
                 out.append((key, pl, mode))
+    # payloads holding the protocols' own sync / terminator bytes
+    for key, mode in ((b"\x06\x08", 1), (b"\x01\x02", 0), (b"\x06\x01", 1), (b"\x06\x01", 2), (b"\x77\x01", 0), (b"\x06\x8a", 1)):
+        for t in (b"\xb5\x62", b"\x24\x47", b"\xd3\x00", b"\r\n"):
+            for pl in (t * 3, b"\x00" + t * 2 + b"\x01", t + bytes(4), bytes(4) + t):
+                out.append((key, pl, mode))
     # a maximal-length payload
     out.append((b"\x77\x01", bytes(65535)))
     return out
@@ -68,8 +73,18 @@ def run(ctx):
     fr = frames(ctx)
     cmds = []
     cases = []
-    for n, item in enumerate(fr):
-        key, pl = item[0], item[1]
+    special = []
+    for key in (b"\x06\x08", b"\x01\x02", b"\x77\x01"):
+        for tgt in gen.SPECIAL_CHECKSUMS:
+            f = gen.frame_with_checksum(key[0], key[1], tgt, rng)
+            if f:
+                special.append(f)
+    ctx.count("frames_with_special_checksum_bytes", len(special))
+    for n, item in enumerate(fr + [("raw", f) for f in special]):
+        if item[0] == "raw":
+            key, pl = item[1][2:4], item[1][6:-2]
+        else:
+            key, pl = item[0], item[1]
         f = gen.ubx_frame(key[0], key[1], pl)
         mode = item[2] if len(item) > 2 and n % 5 else n % 4
         bf = (n // 4) % 2
@@ -93,6 +108,9 @@ def run(ctx):
         inp = {"op": "PARSE", "hex": f.hex() if len(f) < 400 else f[:40].hex() + "...", "mode": mode, "bf": bf, "validate": val}
         plen = len(f) - 8
         ser = m.serialize()
+        if m.serialize() != ser or m.serialize() != ser or repr(m) != repr(m):
+            ctx.fail("serialize-not-repeatable", inp, ser[:64].hex(), m.serialize()[:64].hex())
+            continue
         if ser != f:
             ctx.fail("serialize-differs", inp, f[:64].hex(), ser[:64].hex())
             continue
